@@ -318,12 +318,32 @@ impl Scenario for C08 {
                 let mut comp = vec![2 | (un[96] & 1)];
                 comp.extend_from_slice(&un[1..49]);
                 b.push(Step::KeyFromRaw { slot: pk_c, family: 3, kind: Kind::Public, bytes: Bytes::hex(&comp) });
+                // hybrid (06/07) and, when this point is the one the x-only compact form (05) denotes, compact
+                let mut alt = vec![pk_un, pk_c];
+                let mut hy = un.clone();
+                hy[0] = 6 | (un[96] & 1);
+                let pk_h = b.key_slot();
+                b.push(Step::KeyFromRaw { slot: pk_h, family: 3, kind: Kind::Public, bytes: Bytes::hex(&hy) });
+                alt.push(pk_h);
+                if let Some((ymin, _)) = crate::curves::p384_ys_of_x(&un[1..49]) {
+                    if ymin == num_bigint_dig::BigUint::from_bytes_be(&un[49..]) {
+                        let mut cp = vec![5u8];
+                        cp.extend_from_slice(&un[1..49]);
+                        let pk_5 = b.key_slot();
+                        b.push(Step::KeyFromRaw { slot: pk_5, family: 3, kind: Kind::Public, bytes: Bytes::hex(&cp) });
+                        alt.push(pk_5);
+                    }
+                }
                 let tok = b.tok_slot();
                 let rng = b.healthy_rng();
                 let signer = b.rng.usize_below(nodes.len());
                 b.push(Step::Seal { tok, node: signer, key: sk, purpose: Purp::Public, claims: ClaimsSpec::Raw { bytes: Bytes::hex(b"alt-encoding") }, footer: FootSpec::Unit, aad: Bytes::empty(), nonce: None, alias: false, rng, now_ns: now });
                 for node in 0..nodes.len() {
-                    for key in [pk_un, pk_c] {
+                    for &key in &alt {
+                        b.push(Step::KeyCheck { node, slot: key });
+                        b.push(Step::Id { node, slot: key });
+                    }
+                    for key in alt.clone() {
                         b.push(Step::Deliver { tok, node, key, purpose: None, faults: vec![], pk: None, fk: None, validator: VSpec::None, alias: false, now_ns: now, pair_with: None });
                     }
                     b.push(Step::KeyCheck { node, slot: pk_un });
@@ -379,6 +399,34 @@ impl Scenario for C13 {
                 b.push(Step::KeyFromRaw { slot: c, family: f, kind: Kind::Local, bytes: Bytes::hex(&pk) });
                 slots.push(a);
                 slots.push(c);
+            }
+        }
+        // v3: one public key handed over in every SEC1 form a backend may accept (compressed, uncompressed,
+        // hybrid, compact): whoever accepts a form computes the id of the *key*, i.e. of its canonical text
+        if f == 3 {
+            for kind in [Kind::Public, Kind::PkePublic] {
+                let mut sc = crate::prng::Rng::new(b.ev_seed()).bytes(48);
+                sc[0] &= 0x7f;
+                if let Some(un) = crate::refimpl::p384_uncompressed_of_scalar(&sc) {
+                    let mut forms: Vec<Vec<u8>> = Vec::new();
+                    let mut comp = vec![2 | (un[96] & 1)];
+                    comp.extend_from_slice(&un[1..49]);
+                    forms.push(comp);
+                    forms.push(un.clone());
+                    let mut hy = un.clone();
+                    hy[0] = 6 | (un[96] & 1);
+                    forms.push(hy);
+                    let mut cp = vec![5u8];
+                    cp.extend_from_slice(&un[1..49]);
+                    forms.push(cp);
+                    for fb in forms {
+                        let s = b.key_slot();
+                        b.push(Step::KeyFromRaw { slot: s, family: 3, kind, bytes: Bytes::hex(&fb) });
+                        for node in 0..nodes.len() {
+                            b.push(Step::Id { node, slot: s });
+                        }
+                    }
+                }
             }
         }
         for round in 0..3 {
@@ -641,6 +689,25 @@ impl Scenario for C04 {
                 let blob = b.blob_slot();
                 b.push(Step::BlobInject { blob, family: f, wk: WrapKind::Pw, kind: Kind::Local, text: format!("k{f}.local-pw.{}", b64(&data)) });
                 b.push(Step::Unwrap { blob, node, with: pw.clone(), faults: vec![], as_kind: None });
+            }
+        }
+        // re-wrapping with cost parameters taken from a parsed (attacker-written) blob: degenerate values
+        // may be refused, never panic
+        {
+            let odd: Vec<PwParams> = if nist {
+                vec![PwParams::Iter(0), PwParams::Iter(1)]
+            } else {
+                vec![PwParams::Argon(0, 0, 0), PwParams::Argon(8192, 0, 1), PwParams::Argon(8192, 1, 0), PwParams::Argon(1024, 1, 1), PwParams::Argon(8193, 1, 1), PwParams::Argon(16 * 1024, 1, 3), PwParams::Argon(8192, 1, 2)]
+            };
+            for p in odd {
+                for (node, _) in nodes.iter().enumerate() {
+                    for key in [fk.local, fk.secret] {
+                        let blob = b.blob_slot();
+                        let rng = b.healthy_rng();
+                        b.push(Step::Wrap { blob, node, wk: WrapKind::Pw, key, with: pw.clone(), params: p.clone(), rng });
+                        b.push(Step::Unwrap { blob, node, with: pw.clone(), faults: vec![], as_kind: None });
+                    }
+                }
             }
         }
         // sealed-key blobs whose ephemeral public key / RSA ciphertext is degenerate (low-order and
